@@ -11,6 +11,7 @@ from concurrent.futures import ThreadPoolExecutor
 
 ROOT = os.path.dirname(os.path.dirname(os.path.abspath(__file__)))
 HARNESS = os.path.join(ROOT, "harness", "target", "release", "oke-harness")
+HARNESS_PLAIN = os.path.join(ROOT, "harness", "target", "plain", "oke-harness")   # no overflow checks, assertions compiled out
 MODEL = os.path.join(ROOT, "ocaml", "oke-model")
 
 OPRFS = ["R255", "P256", "P384", "P521"]
@@ -139,10 +140,12 @@ class Proc:
 class Pair:
     def __init__(s):
         s.impl = Proc(HARNESS, "impl")
+        s.impl_plain = Proc(HARNESS_PLAIN if os.path.exists(HARNESS_PLAIN) else HARNESS, "impl")
         s.model = Proc(MODEL, "model")
 
     def close(s):
         s.impl.close()
+        s.impl_plain.close()
         s.model.close()
 
 
@@ -293,13 +296,22 @@ def run_case(pair, case):
     res = {"case": {k: v for k, v in case.items() if k != "script"}, "script": fn.__name__}
     sides = {}
     shared = {}
-    for side, proc in (("impl", pair.impl), ("model", pair.model)):
+    # the code runs in one of two builds of the same source (PROTOCOL.md): "checked" (overflow checks and debug assertions
+    # on) or "plain" (a production release build); both must behave as the model
+    impl = pair.impl_plain if case.get("build") == "plain" else pair.impl
+    for side, proc in (("impl", impl), ("model", pair.model)):
         ctx = Ctx(proc, side, suite, case.get("seed", 0))
         ctx.shared = shared      # written by the impl run (first), read by the model run: replay of opaque functions (Argon2)
         try:
             fn(ctx, **params)
         except Stop:
             pass
+        except (IndexError, AttributeError, TypeError, ValueError, KeyError) as e:
+            # the script used an output of a step that did not deliver it (the step failed or answered in another
+            # shape): on the unchanged tree every step of a battery delivers, so this is itself an oracle failure
+            last = ctx.trace[-1] if ctx.trace else {"op": "-", "status": "-", "payload": ""}
+            ctx.expect(False, "step %s answered %s %s where the battery needs its outputs (%s: %s)"
+                       % (last["op"], last["status"], str(last["payload"])[:60], type(e).__name__, e))
         sides[side] = ctx
     ci, cm = sides["impl"], sides["model"]
     mode = case.get("mode", "pattern")
